@@ -100,6 +100,20 @@ def run(ctx):
             c.require(stA == stB or stA in ("primal infeasible", "dual infeasible"), key + ":status-differs",
                       "status %r vs %r" % (stA, stB))
             return stA
+        if stA != stB and prA.P is not None and not ext and sorted([stA, stB]) == ["optimal", "unknown"]:
+            # mechanism split: coneqp's Mehrotra corrector cycles (period 3-4) between primal/dual feasible iterates while
+            # the gap oscillates, until maxiters (the recorded C05 finding 'coneqp:unknown-at-maxiters-feasible-iterates-
+            # gap-cycling'); whether it strikes depends on the presentation, so it surfaces here as a status difference
+            su = solA if stA == "unknown" else solB
+            if (su.get("iterations") or 0) >= 100 and (su.get("primal infeasibility") or 1) <= 1e-6 and \
+                    (su.get("dual infeasibility") or 1) <= 1e-6:
+                ctx.count("coneqp-gap-cycling-in-one-presentation")
+                c.check()
+                c.fail("coneqp-gap-cycling:" + key, "status %r (base) vs %r (transformed): the 'unknown' run stopped at maxiters with "
+                       "feasible iterates (pres %.1e, dres %.1e) and gap %.2e" % (stA, stB, su["primal infeasibility"],
+                                                                                su["dual infeasibility"], su["gap"]),
+                       itA=solA.get("iterations"), itB=solB.get("iterations"))
+                return stA
         if not c.require(stA == stB, key + ":status-differs", "status %r (base) vs %r (transformed)" % (stA, stB),
                          itA=solA.get("iterations"), itB=solB.get("iterations")):
             return stA
